@@ -18,6 +18,11 @@ def make_gmm(p, floors=True, **kw):
 
 def _layout(a, layout):
     """Same values in another memory layout: 'F' column-major, 'strided' a view into a larger buffer."""
+    if layout == "lazy":
+        # still-lazy arrays, as in the statistics acc_stats returns for a Dask array
+        import dask.array as da
+
+        return da.from_array(np.ascontiguousarray(a), chunks=tuple(max(1, -(-k // 2)) for k in a.shape))
     if layout == "F":
         return np.asfortranarray(a)
     if layout == "strided":
@@ -35,7 +40,7 @@ def make_stats(d, C=None, F=None, layout="C"):
     F = F or f.shape[1]
     s = GMMStats(C, F)
     s.t = int(d["t"])
-    s.n = _layout(n, layout if layout == "strided" else "C")
+    s.n = _layout(n, layout if layout in ("strided", "lazy") else "C")
     s.sum_px = _layout(f, layout)
     s.sum_pxx = _layout(np.array(d.get("sum_pxx", np.zeros_like(f)), dtype=float), layout)
     s.log_likelihood = float(d.get("log_likelihood", 0.0))
